@@ -1,10 +1,70 @@
 import HvsrVerif.Drv.Loop
+import HvsrVerif.Model.Cli
 /-! driver commands of C19 (stateless: one request line in, one answer line out) -/
 namespace HV.Drv
-open HV.Proto
+open HV.Proto HV.Cli
+
+/-- `unset | nokey | nnone | <k>` -/
+def fftState : P FftState := do
+  let t ← tok
+  if t == "unset" then pure .unset
+  else if t == "nokey" then pure .noKey
+  else if t == "nnone" then pure .nNone
+  else match t.toNat? with
+    | some k => pure (.n k)
+    | none => throw s!"fftstate:{t}"
+
+def fFftState : FftState → String
+  | .unset => "unset"
+  | .noKey => "nokey"
+  | .nNone => "nnone"
+  | .n k => toString k
+
+def fONat : Option Nat → String
+  | none => "none"
+  | some k => toString k
+
+def cliMode : P Mode := do
+  let t ← tok
+  if t == "fresh" then pure .fresh
+  else if t == "shared" then pure .shared
+  else throw s!"mode:{t}"
+
+/-- `nextpow2 n min` → `ok r` | `err diverges` (non-positive start: the Python loop never ends) -/
+def opNextpow2 : P String := do
+  let n ← nat; let m ← nat
+  if h : 0 < m then pure s!"ok {nextpow2 n m h}" else pure "err diverges"
+
+/-- `prepfft STATE reps maxN` → the states after each of `reps` successive calls of
+`prepare_fft_settings` with the same records -/
+def opPrepFft : P String := do
+  let s ← fftState; let reps ← nat; let m ← nat
+  let states := (List.range reps).map (fun i => runTask (i + 1) s m)
+  pure ("ok " ++ " ".intercalate (states.map fFftState))
+
+/-- `cli.batch nproc MODE reps STATE nfiles samples*` →
+`ok nfiles (fft n written for file i)* nchunks (chunk length)*` | `err ValueError` -/
+def opCliBatch : P String := do
+  let nproc ← nat; let mode ← cliMode; let reps ← nat; let s ← fftState
+  let files ← natVec
+  match cliBatch mode reps s (fun n _ => n) files nproc with
+  | .error e => pure ("err " ++ e)
+  | .ok res =>
+    let ns := res.map (fun p => fONat p.2)
+    let cl := (chunks files nproc).map List.length
+    pure ("ok " ++ " ".intercalate (toString ns.length :: ns) ++ " " ++ fNVec cl)
+
+/-- `cli.alone reps STATE samples` → fft n of the stand-alone pipeline -/
+def opCliAlone : P String := do
+  let reps ← nat; let s ← fftState; let file ← nat
+  pure ("ok " ++ fONat (alone reps s (fun n _ => n) file))
 
 def opsC19 (op : String) : Option (P String) :=
   match op with
+  | "nextpow2" => some opNextpow2
+  | "prepfft" => some opPrepFft
+  | "cli.batch" => some opCliBatch
+  | "cli.alone" => some opCliAlone
   | _ => none
 
 end HV.Drv
